@@ -8,10 +8,10 @@ from typing import Any, Dict, Iterator, List
 from mc import kineto, refmodel, reftree
 
 ID = "C16"
-TECHNIQUE = ("bounded-exhaustive enumeration of operator-instance sequences built from 11 tree templates (name at one "
+TECHNIQUE = ("bounded-exhaustive enumeration of operator-instance sequences built from 12 tree templates (name at one "
              "or two depths, nested same-name operators, missing kernels, copies, equal-start kernels) x operator name "
              "x min_pattern_len x top_k, real get_frequent_cuda_kernel_sequences vs recount from the reference tree")
-RULE = ("every sequence of <=L top-level instances drawn (with repetition) from 11 templates over operator names "
+RULE = ("every sequence of <=L top-level instances drawn (with repetition) from 12 templates over operator names "
         "{aten::A, aten::B} and activities {kern_x, kern_y, memcpy}; evaluated for operator in {aten::A, aten::B, "
         "absent name} x min_pattern_len in {0,1,2,3} x top_k in {1,5}; length-2 sequences also with the file order reversed; a variant wraps everything in profiler-step "
         "annotations. non-trivial = at least two patterns, or an instance excluded by depth or by min_pattern_len")
@@ -24,6 +24,7 @@ ASSUMPTIONS = [
 E0 = 1_700_000_000_000_000
 A, B = "aten::A", "aten::B"
 KX, KY, MC = "kern_x", "kern_y", "Memcpy DtoD (Device -> Device)"
+KB = "kern_big"   # long activity: per-operator duration sums beyond any 8-bit range
 # template = nested list: (name, [children]) where a child is a template or ("L", kernel name | None, kernel_start_offset)
 TEMPLATES = [
     (A, [("L", KX, 2)]),
@@ -37,13 +38,14 @@ TEMPLATES = [
     (A, [("L", MC, 2), ("L", KX, 3)]),
     (B, [("L", KY, 2), ("L", KX, 20)]),
     (A, [("L", KX, 2), (B, [("L", KY, 2), ("L", KX, 3)])]),
+    (A, [("L", KB, 2), ("L", KB, 400)]),
 ]
 TIE_TEMPLATE = 7
 
 
 def bounds(tier: str) -> Dict[str, Any]:
     if tier == "quick":
-        return dict(L=2, L3_subset=[0, 1, 3, 4, 7, 10], chunk=4)
+        return dict(L=2, L3_subset=[0, 1, 3, 4, 7, 11], chunk=4)
     return dict(L=3, L3_subset=list(range(len(TEMPLATES))), chunk=4)
 
 
@@ -82,7 +84,7 @@ def build(world) -> List[Dict[str, Any]]:
                 if c[1] == MC:
                     evs.append(kineto.memcpy(MC, ts + c[2], 2, 9, state["corr"], bw=1.0))
                 elif c[1] is not None:
-                    evs.append(kineto.kernel(c[1], ts + c[2], 3 if c[1] == KX else 4, 7, state["corr"]))
+                    evs.append(kineto.kernel(c[1], ts + c[2], {KX: 3, KY: 4, KB: 300}[c[1]], 7, state["corr"]))
                 state["corr"] += 1
                 state["t"] += 4
             else:
